@@ -106,3 +106,21 @@ def verifyReturn (pre : α → α → Bool) (disco : List α) (url : α) : Bool 
   disco.any (fun loc => pre loc url)
 
 end Routing
+
+namespace Routing
+variable {α : Type} [DecidableEq α]
+
+/-- `do_logout` over several identity providers, in order: an entity whose lookup raises aborts the
+    whole call (`none`); otherwise one choice per entity (`none` inside = entity skipped). -/
+def sloAll (truthy : α → Bool) (preferred : List α) (expected : Option α) :
+    List (List (Endpoint α)) → Option (List (Option (Pick α)))
+  | [] => some []
+  | eps :: rest =>
+    match sloChoice truthy eps preferred expected with
+    | some .refused => none
+    | c =>
+      match sloAll truthy preferred expected rest with
+      | none => none
+      | some cs => some (c :: cs)
+
+end Routing
